@@ -263,6 +263,7 @@ func init() {
 			}
 		})
 
+		c.Group("C15/linearizable-reads", "the etcd reads under the storage layer are linearizable (never WithSerializable)", func() { ruleLinearizableReads(c) })
 		c.Group("C15/storage-errors", "errors of the kv layer and of the GC storage methods are never reported as success", func() { ruleGCStorageErrors(c) })
 		c.Group("C15/service-safepoint", "service safe points: load-min→save atomic; registration only under TTL>0 ∧ safePoint>=min; TTL<=0 removes; gc_worker is permanent; expired entries are removed", func() {
 			st := func(m string) *ssa.Function { return P.Method("server/core", "Storage", m) }
@@ -568,5 +569,49 @@ func (c *Ctx) responseMax(fn *ssa.Function, newV ssa.Value, loadFnF *ssa.Functio
 			}
 			c.Check(good && hasOld, "C15/response-max", construct, req, P.instrPos(st), detail)
 		}
+	}
+}
+
+// ruleLinearizableReads: decisions that compare a request with what is stored
+// (the minimum service safe point, the cluster safe point, the time window)
+// read through etcd's linearizable Get. A serializable read is answered by the
+// contacted member from its own, possibly lagging, state — holding a PD-side
+// mutex does not help. No storage or election path asks for one.
+func ruleLinearizableReads(c *Ctx) {
+	P := c.P
+	rule := c.Prop + "/linearizable-reads"
+	scope := map[string]bool{}
+	for _, rel := range []string{"server/kv", "pkg/etcdutil", "server/core", "server/election", "server/tso", "server/id", "server/member", "server"} {
+		scope[modPath+"/"+rel] = true
+	}
+	nOpts, bad := 0, 0
+	for _, fn := range P.Funcs {
+		if P.isScaffold(fn) || !scope[fnPkgPath(fn)] {
+			continue
+		}
+		for _, b := range fn.Blocks {
+			for _, ins := range b.Instrs {
+				cl, ok := ins.(*ssa.Call)
+				if !ok {
+					continue
+				}
+				f := cl.Call.StaticCallee()
+				if f == nil || f.Pkg == nil || !strings.HasSuffix(f.Pkg.Pkg.Path(), "/clientv3") || !strings.HasPrefix(f.Name(), "With") {
+					continue
+				}
+				nOpts++
+				if f.Name() == "WithSerializable" {
+					bad++
+					c.Viol(rule, fmt.Sprintf("clientv3.WithSerializable #%d in %s", bad, fnName(fn)), "storage and election reads are linearizable", P.instrPos(cl), "a serializable read may be answered from a lagging etcd member")
+				}
+			}
+		}
+	}
+	if nOpts < 3 {
+		c.Undec(rule, "clientv3 read options in the storage/election packages", "at least 3 (WithRange, WithLimit, WithPrefix …)", "", fmt.Sprint(nOpts))
+		return
+	}
+	if bad == 0 {
+		c.OK(rule, "clientv3 read options in the storage and election packages", "none asks for a serializable read", "")
 	}
 }
